@@ -233,7 +233,7 @@ func runC06Case(r *Rng) (*thSession, *c06Plan, map[string]int) {
 					s.fail("C06", "journey-or-trip-marker-wrong", fmt.Sprintf("after update(now=%d, %d of %d legs reported, %d outbound, interval %d, trip length %d, promises %v): leg %d carries marker %d, expected %d (0 flight, 1 journey end, 2 trip end)", now, added, len(pl.legs), pl.n1, p.FI, p.TL, pl.promises, i, got, want))
 				}
 			}
-			mid := s.th.MidTrip()
+			mid := s.midByMarkers()
 			wantMid := true
 			if added == len(pl.legs) {
 				if !pl.promises && now >= pl.closeNow {
